@@ -38,7 +38,9 @@ Delivers(s) == s \in {"direct", "two", "three"}
 Dt(d) == CASE d = "1ms" -> 1 [] d = "half" -> HB \div 2 [] d = "hb-1" -> HB - 1 [] d = "hb" -> HB
            [] d = "2hb-1" -> 2 * HB - 1 [] d = "2hb" -> 2 * HB [] d = "2hb+1" -> 2 * HB + 1
 
-Cases == [shape : Shapes, delta : Deltas, dt : DtClasses, seed : Seeds]
+(* join: the node starts in the middle of the chain (its first block is b2, it never sees the genesis block): *)
+(* it validates without the spendable set, the work rules apply all the same                                 *)
+Cases == [shape : Shapes, delta : Deltas, dt : DtClasses, seed : Seeds, join : BOOLEAN]
 
 (* what the rules say about the block of the case: accepted iff every path is valid and the    *)
 (* work delivered to the creator meets the requirement                                         *)
@@ -47,14 +49,14 @@ Expect(k) == IF PathOk(k.shape) /\ (Dt(k.dt) >= 2 * HB \/ (Delivers(k.shape) /\ 
 
 Big == 1000000000
 Scenario(k) ==
-    [g |-> 10, hb |-> HB, keys |-> 3, node_key |-> "k2", replica |-> FALSE,
+    [g |-> 10, hb |-> HB, keys |-> 3, node_key |-> "k2", replica |-> FALSE, skip_genesis |-> k.join,
      issuance |-> <<<<"k1", Big>>, <<"k1", Big>>, <<"k1", 700000>>, <<"k1", 600000>>, <<"k2", 500000>>>>,
      tag |-> "work-case",
      steps |-> <<
-       [op |-> "block", label |-> "b2", gt |-> TRUE, gap |-> 2, tag |-> "good",
+       [op |-> "block", label |-> "b2", parent |-> IF k.join THEN "b1" ELSE "tip", gt |-> TRUE, gap |-> 2, tag |-> "good",
         txs |-> <<[id |-> "t1", signer |-> "k1", ins |-> <<"g2">>, outs |-> <<<<"k1", 0>>>>, fee |-> 3,
                    path |-> <<>>, edit |-> "", tune |-> FALSE]>>],
-       [op |-> "block", label |-> "b3", gt |-> TRUE, dt |-> Dt(k.dt), tune |-> k.delta,
+       [op |-> "block", label |-> "b3", parent |-> IF k.join THEN "b2" ELSE "tip", gt |-> TRUE, dt |-> Dt(k.dt), tune |-> k.delta,
         tag |-> "work:" \o Expect(k) \o ":" \o k.shape \o ":" \o k.dt,
         txs |-> <<[id |-> "t2", signer |-> "k1", ins |-> <<"g0">>, outs |-> <<<<"k2", 0>>>>, fee |-> 0,
                    path |-> Path(k.shape), edit |-> EditOf(k.shape), tune |-> TRUE],
@@ -78,7 +80,7 @@ PrintScenario == PrintT(<<"SCN", ToJson(Scenario(c))>>)
 Fees == {0, 1, 2, 3, 4, 5, 7, 8, 9, 1023, 1024, 1025, 2097151, 2097152, 2097153, 123456789}
 Tx(fee, hops) == [ins |-> <<[o |-> "i", owner |-> "k1", amt |-> LimbOfNat(fee + 10), bh |-> 1, kind |-> KNormal]>>,
                   outs |-> <<[o |-> "o", owner |-> "k2", amt |-> LimbOfNat(10), kind |-> KNormal]>>,
-                  hops |-> hops]
+                  hops |-> hops, edit |-> ""]
 W(fee, s) == WorkOf(Tx(fee, Hops(s)), "c")
 
 WorkShape ==   \* evaluated once per state; quantifies over all fees
